@@ -216,7 +216,7 @@ func c11(r *hx.Run) {
 			fail("create-parse-back", "create request does not carry the supplied commitments / origin or its hashes are not the independent ones")
 		}
 		// ---- update
-		updPatches := []interface{}{fx.AddServicePatch("svc2", "https://example.com/2"), map[string]interface{}{"action": "remove-services", "ids": []interface{}{"svc1"}}}
+		updPatches := []interface{}{fx.AddServicePatch("svc2", "https://example.com/2?a=1&b=<x>"), map[string]interface{}{"action": "remove-services", "ids": []interface{}{"svc1"}}}
 		rv0, _ := commitment.GetRevealValue(jwks["u0"], c.code)
 		ureq, err := client.NewUpdateRequest(&client.UpdateRequestInfo{DidSuffix: suffix, Patches: toPatches(updPatches), UpdateCommitment: commits["u1"],
 			UpdateKey: jwks["u0"], MultihashCode: c.code, Signer: libSigner(keys["u0"], kid), RevealValue: rv0, AnchorFrom: from, AnchorUntil: until})
@@ -281,6 +281,25 @@ func c11(r *hx.Run) {
 		dsd, err := ver.Parser.ParseSignedDataForDeactivate(dop.SignedData)
 		if err != nil || dop.UniqueSuffix != suffix || dsd.DidSuffix != suffix || dsd.AnchorFrom != from || dsd.AnchorUntil != until || *dsd.RecoveryKey != *jwks["r0"] {
 			fail("deactivate-parse-back", fmt.Sprintf("deactivate does not parse back (err=%v)", err))
+		}
+		// ---- exact fit: each built request with a delta is accepted by a protocol whose operation-size and delta-size limits
+		// are exactly the request's size and its canonical delta's size (the update's delta contains & < >, which some JSON
+		// encoders escape and the canonical form does not)
+		for _, br := range []struct {
+			name string
+			req  []byte
+		}{{"create", createReq}, {"update", ureq}, {"recover", rreq}} {
+			var t map[string]interface{}
+			if json.Unmarshal(br.req, &t) != nil || t["delta"] == nil {
+				continue
+			}
+			pfit := ver.P
+			pfit.MaxOperationSize = uint(len(br.req))
+			pfit.MaxDeltaSize = uint(len(jcs.MustCanon(t["delta"])))
+			if _, e := operationparser.New(pfit).Parse("did:sidetree", br.req); e != nil {
+				fail("built-request-rejected-at-exact-limits:"+br.name, fmt.Sprintf("request of %d bytes with a canonical delta of %d bytes refused under limits equal to these sizes: %v", pfit.MaxOperationSize, pfit.MaxDeltaSize, e))
+			}
+			r.Eval()
 		}
 		// ---- effect
 		mk := func(id string, typ operation.Type, req []byte) *fx.PoolOp {
